@@ -115,7 +115,8 @@ def gen(tier, rng, shard, nshards):
             kind, k, which = "herm-definite", 1, "LM"
             node = gen_matrix(rng, kind, n, dt, float(S.pick(rng, [1e-8, 1e-8, 1e8])))
             alg = S.pick(rng, [OMIT, "Auto", "PowerIteration"])
-        yield {"spec": node, "kind": kind, "k": k, "which": which, "alg": alg, "cap": cap, "fn": S.pick(rng, ["eig", "eig", "eig", "eigmax", "eigmin"]), "reuse": bool(rng.random() < 0.3)}
+        yield {"spec": node, "kind": kind, "k": k, "which": which, "alg": alg, "cap": cap, "fn": S.pick(rng, ["eig", "eig", "eig", "eigmax", "eigmin"]), "reuse": bool(rng.random() < 0.3),
+               "prime": S.pick(rng, [None, None, None, "shifted", "squared"])}
 
 
 def make_alg(case, n):
@@ -197,6 +198,22 @@ def run_case(ctx, case):
             return
         preds["dominant_negative_or_complex"] = bool(abs(np.angle(ref_eigs[np.argmax(np.abs(ref_eigs))])) > 1e-9)
         tol = 1e-4 * normA
+    if case.get("prime") and n > 1:
+        # hostile history: the same routine was called just before on a *related* operator of the same shape and dtype
+        # (same eigenvectors, other eigenvalues: c I - A, or A^2).  Routines keep no memory of earlier operators.
+        M2 = (1.1 * normA * np.eye(n) - M) if case["prime"] == "shifted" else (M @ M) / normA
+        A2 = cola.ops.Dense(M2.astype(ref.dtype))
+        if herm:
+            A2 = cola.SelfAdjoint(A2)
+        ctx.count("primed_with", case["prime"])
+        if case["fn"] in ("eigmax", "eigmin"):
+            ctx.call(getattr(L, case["fn"]), A2, *(() if case["alg"] == OMIT else (make_alg(case, n), )))
+        elif case["alg"] == OMIT:
+            ctx.call(L.eig, A2, k, which)
+        else:
+            ctx.call(L.eig, A2, k, which, make_alg(case, n))
+        if power:
+            ctx.call(L.eigmax, A2)
     if case["fn"] in ("eigmax", "eigmin"):
         alg = () if case["alg"] == OMIT else (make_alg(case, n), )
         if case["alg"] == "PowerIteration" and case["fn"] == "eigmin":
